@@ -75,6 +75,8 @@ def _inherited_keys(inh):
     """names put into `methods_to_check`: by `insert("…")` calls, from an array literal, or from a const array it is collected from"""
     keys = re.findall(r'methods_to_check\.insert\(\s*"([^"]+)"\s*\)', inh)
     if keys:
+        if len(keys) != len(re.findall(r"methods_to_check\s*\.\s*insert\s*\(", inh)):
+            raise ValueError("inherited: an insert into methods_to_check is not a string literal")
         return keys
     m = re.search(r"let\s+(?:mut\s+)?methods_to_check\b[^=;]*=\s*([^;]+);", inh)
     if not m:
